@@ -1309,6 +1309,8 @@ class Lib:
 
     def construct(self, interp, cls, args, kwargs, node):
         c = interp.contracts.get(cls.qual + ".__init__")
+        if interp.tc is not None and (cls.qual + ".__init__") in getattr(interp.tc, "overrides", {}):
+            c = interp.tc.overrides[cls.qual + ".__init__"]
         if c is not None:
             init = interp.module.module_of(cls.qual).class_member(cls.qual.split("::")[1], "__init__")
             obj = SObj(cls.qual.split("::")[1], {})
